@@ -9,7 +9,7 @@
 EXTENDS Values, Json, SequencesExt
 VARIABLE done
 Leaves == { Num(0), Num(1), Num(-1), Num(65792), Str(""), Str("a"), Str("1"), Str("/a"), Str("a\"b"), Str("two\nlines"),
-            Nm("/a"), Nm("/a/b"), Nm("/1"), <<"y", "a">>, <<"y", "">>, <<"f", "1">>, <<"f", "1.5">>, <<"f", "-0.5">>, <<"f", "0">>,
+            Nm("/a"), Nm("/a/b"), Nm("/1"), <<"y", "a">>, <<"y", "">>, <<"f", "1">>, <<"f", "1.5">>, <<"f", "-0.5">>, <<"f", "0">>, <<"f", "-0">>,
             Tm(0), Tm(1), Du(0), Du(90) }
 Small == { Num(1), Str("a"), Nm("/a"), <<"f", "1">> }
 Depth1 ==
